@@ -13,6 +13,7 @@ use opaque_ke::*;
 pub mod witnesses;
 
 /// Stand-in for the caller's random generator.
+#[derive(Clone, Debug, Default)]
 pub struct TapeRng;
 impl RngCore for TapeRng {
     fn next_u32(&mut self) -> u32 {
